@@ -13,7 +13,11 @@ func header(suite Suite, _ kyber.Point, x kyber.Scalar,
 
 	// Encrypt the master scalar key with each public key in the set
 	S := suite.Point()
-	hdr := xb1
+	// Build the header in a buffer of its own: xb1 may be a prefix of the
+	// caller's ciphertext, and appending to it would write into that
+	// ciphertext (making the comparison in decryptKey vacuous).
+	hdr := make([]byte, 0, len(xb1)+len(anonymitySet)*len(xb1))
+	hdr = append(hdr, xb1...)
 	for i := range anonymitySet {
 		Y := anonymitySet[i]
 		S.Mul(x, Y) // compute DH shared secret
@@ -184,8 +188,10 @@ func Decrypt(suite Suite, ciphertext []byte, anonymitySet Set, mine int, private
 	msg := make([]byte, len(ctx))
 	xof.XORKeyStream(msg, ctx)
 	xof = suite.XOF(ctx)
-	xof.XORKeyStream(mac, mac)
-	if constantTimeAllEq(mac, 0) == 0 {
+	// compare on a copy: the caller's ciphertext must stay intact
+	check := make([]byte, len(mac))
+	xof.XORKeyStream(check, mac)
+	if constantTimeAllEq(check, 0) == 0 {
 		return nil, errors.New("invalid ciphertext: failed MAC check")
 	}
 	return msg, nil
